@@ -20,7 +20,7 @@ T_BIG = b"PDU too big, max. PDU size is: 3248 bytes\0"
 T_SESSION = b"Wrong session_id in Cache Response PDU\0"
 T_UNEXP_SYNC = b"Unexpected PDU received in data synchronisation\0"
 T_UNEXP_STORE = b"Unexpected PDU received during data synchronisation\0"
-T_PFX_LEN = b"Prefix PDU with a prefix length exceeding the address size received\0"
+T_PFX_LEN = b"Prefix PDU with an invalid prefix length or bits set beyond it received\0"
 T_PFX_FLAGS = b"Prefix PDU with invalid flags value received\0"
 T_KEY_FLAGS = b"Router Key PDU with invalid flags value received\0"
 EOD_RE = re.compile(rb"^Expected session_id: (\d+), received session_id\. (\d+) in EOD PDU\0$")
@@ -38,7 +38,7 @@ CLASS = {
     "cr_session": (CORRUPT, "none", T_SESSION),      # Cache Response of another session
     "unexp_sync": (CORRUPT, "hdr", T_UNEXP_SYNC),    # PDU that cannot start an answer
     "unexp_store": (CORRUPT, "hdr", T_UNEXP_STORE),  # PDU that cannot be part of an answer
-    "pfx_len": (CORRUPT, "full", T_PFX_LEN),         # prefix / max length beyond the address size
+    "pfx_len": (CORRUPT, "full", T_PFX_LEN),         # prefix / max length beyond the address size, or a bit set behind the prefix length
     "flags_pfx": (CORRUPT, "full", T_PFX_FLAGS),
     "flags_key": (CORRUPT, "full", T_KEY_FLAGS),
     "dup": (DUPLICATE, "full", b""),                 # RFC 8210: 7 = Duplicate Announcement Received
@@ -330,7 +330,13 @@ def offender_is(c, enc, raw, data, C, ln):
     if c == "unexp_store":
         return enc[1] not in (4, 6, 9, 7, 10, 0)
     if c == "pfx_len":
-        return enc[1] in (4, 6) and len(enc) > 10 and max(enc[9], enc[10]) > (32 if enc[1] == 4 else 128)
+        if not (enc[1] in (4, 6) and len(enc) > 10):
+            return False
+        w = 32 if enc[1] == 4 else 128
+        if max(enc[9], enc[10]) > w:
+            return True
+        addr = int.from_bytes(enc[12:12 + w // 8], "big") if len(enc) >= 12 + w // 8 else 0
+        return (addr & ((1 << (w - enc[9])) - 1)) != 0
     if c == "flags_pfx":
         return enc[1] in (4, 6) and flag not in (0, 1, None)
     if c == "flags_key":
@@ -512,6 +518,14 @@ def scenarios(rnd, tier="quick"):
                     for fl in (0, 1, 2):
                         bad = R.prefix_pdu(ver, rec, fl)
                         add("pfx_len", ver, phase, pre, bad, note="ipv%s %d-%d flags %d" % (fam, ln, mx, fl))
+        # 8b a bit set behind the prefix length (every word boundary, the last bit, the bit right behind the length)
+        for phase, pre in places[1:]:
+            for fam, w in (("4", 32), ("6", 128)):
+                for ln in sorted(set([0, 1, 8, 31, 32, 33, 63, 64, 65, 96, w - 1]) & set(range(w))):
+                    for pos in sorted(set([ln, w - 1, min(w - 1, (ln // 32) * 32 + 31), min(w - 1, (ln // 32 + 1) * 32)])):
+                        bits = "1" * ln + "0" * (pos - ln) + "1" + "0" * (w - pos - 1)
+                        bad = R.prefix_pdu(ver, (fam, bits, ln, w, 64512), 1)
+                        add("pfx_len", ver, phase, pre, bad, note="ipv%s /%d bit %d set" % (fam, ln, pos))
         # 9 invalid flags
         for phase, pre in places[1:]:
             for it in EXTRA:
